@@ -53,6 +53,8 @@ pub struct ValCfg {
 	pub max_depth: u32,
 	/// total node budget
 	pub budget: i32,
+	/// when > 0, one string / bytes value in three is between boost/2 and boost bytes long
+	pub str_boost: usize,
 }
 impl ValCfg {
 	pub fn small() -> Self {
@@ -60,6 +62,7 @@ impl ValCfg {
 			max_len: 6,
 			max_depth: 4,
 			budget: 60,
+			str_boost: 0,
 		}
 	}
 }
@@ -178,10 +181,17 @@ fn gen_val_inner(rng: &mut Rng, env: &Env, ty: &Ty, cfg: &ValCfg, budget: &mut i
 			_ => rng.next_u64(),
 		}),
 		Ty::Bytes => {
-			let n = rng.usize(cfg.max_len + 1);
+			let n = if cfg.str_boost > 0 && rng.chance(1, 3) { cfg.str_boost / 2 + rng.usize(cfg.str_boost / 2 + 1) } else { rng.usize(cfg.max_len + 1) };
 			Val::Bytes(rng.bytes(n))
 		}
-		Ty::String => Val::Str(gen_string(rng, cfg.max_len)),
+		Ty::String => {
+			if cfg.str_boost > 0 && rng.chance(1, 3) {
+				let n = cfg.str_boost / 2 + rng.usize(cfg.str_boost / 2 + 1);
+				Val::Str((0..n).map(|i| (b'a' + ((i * 7 + n) % 26) as u8) as char).collect())
+			} else {
+				Val::Str(gen_string(rng, cfg.max_len))
+			}
+		}
 		Ty::Uuid => Val::Str(format!(
 			"{:08x}-{:04x}-{:04x}-{:04x}-{:012x}",
 			rng.next_u64() as u32,
